@@ -56,6 +56,7 @@ type ChainCfg struct {
 	LayoutName     string `json:"layout_name"`     // -l ../<name>
 	FollowSymlinks bool   `json:"follow_symlinks"` // --follow-symlink-dirs on run / record; in directory mode a symlinked directory linked/ is recorded
 	SymlinkCwd     bool   `json:"symlink_cwd"`     // verify's working directory is entered through a symlink (PWD = the symlink path)
+	DirVia         string `json:"dir_via"`         // how -d / --link-dir reach their directory: "" | symlink | symlink-slash | symlink-chain | dotdot
 	TrailingSlash  bool   `json:"trailing_slash"`  // directory arguments spelled with a trailing slash
 }
 
@@ -203,6 +204,9 @@ func (c ChainCfg) features() []string {
 	if c.FollowSymlinks {
 		f = append(f, "follow-symlink-dirs")
 	}
+	if c.DirVia != "" {
+		f = append(f, "dirs-through-"+c.DirVia)
+	}
 	for _, s := range c.Steps {
 		if s.BigStdout {
 			f = append(f, "big-stdout")
@@ -224,7 +228,8 @@ func (c ChainCfg) honestClass() string {
 	k := "verify/honest"
 	for _, f := range c.features() {
 		switch f {
-		case "dsse-links", "dsse-layout", "2signers", "multiline", "cert", "intermediate", "intermediate2", "odd-names", "rerun", "odd-dirs", "symlink-cwd", "normalize", "follow-symlink-dirs", "big-stdout", "many-products":
+		case "dsse-links", "dsse-layout", "2signers", "multiline", "cert", "intermediate", "intermediate2", "odd-names", "rerun", "odd-dirs", "symlink-cwd", "normalize", "follow-symlink-dirs", "big-stdout", "many-products",
+			"dirs-through-symlink", "dirs-through-symlink-slash", "dirs-through-symlink-chain", "dirs-through-dotdot":
 			k += "+" + f
 		}
 	}
@@ -303,6 +308,9 @@ func randomDirs(r *lib.Rng, c *ChainCfg) {
 	c.SymlinkCwd = r.Chance(1, 4)
 	c.TrailingSlash = r.Chance(1, 4)
 	c.FollowSymlinks = r.Chance(1, 4)
+	if r.Chance(1, 4) {
+		c.DirVia = r.Pick([]string{"symlink", "symlink-slash", "symlink-chain", "dotdot"})
+	}
 }
 
 // featuredChains: the histories that failed through the CLI before F6 / F9 / F18
@@ -378,6 +386,26 @@ func featuredChains(r *lib.Rng) []ChainCfg {
 			c.Names = []string{"x=y,z w.txt", "q\"uo,te.txt"}
 			c.DirMode = true
 			c.Steps[0].Method = "record"
+		}),
+		// dirs-through-symlinks: -d / --link-dir given as a symlink to the directory (with and without trailing
+		// slash), through a chain of two symlinks, and as a relative path with .. segments
+		mk(func(c *ChainCfg) { c.DirVia = "symlink" }),
+		mk(func(c *ChainCfg) {
+			c.DirVia = "symlink"
+			c.Steps[0].Method = "record"
+			c.Steps[1].Method = "record"
+			c.AbsPaths = true
+		}),
+		mk(func(c *ChainCfg) { c.DirVia = "symlink-slash"; c.Steps[1].Method = "record" }),
+		mk(func(c *ChainCfg) { c.DirVia = "symlink-chain"; c.Steps[0].Method = "record"; c.Steps[1].DSSE = true }),
+		mk(func(c *ChainCfg) { c.DirVia = "dotdot"; c.Steps[1].Method = "record" }),
+		// links written into the working directory (no -d): only verify's --link-dir goes through the symlink
+		mk(func(c *ChainCfg) { c.DirVia = "symlink"; c.MetaDir = false }),
+		mk(func(c *ChainCfg) {
+			c.DirVia = "symlink-chain"
+			c.MetaDir = false
+			c.Steps[1].Method = "record"
+			c.AbsPaths = true
 		}),
 		// links larger than 1 MiB: a long build log, thousands of products
 		mk(func(c *ChainCfg) { c.Steps[0].BigStdout = true }),
@@ -528,20 +556,21 @@ type funcKey struct { // a functionary key as used on the command line
 }
 
 type world struct {
-	bin, root string
-	cfg       ChainCfg
-	r         *lib.Rng
-	verbose   bool
-	history   []Invocation
-	cases     []lib.Case
-	keys      map[string]*funcKey
-	rootCA    *lib.CA
-	interCA   *lib.CA // policy CA, issued by the root
-	inter2CA  *lib.CA // issuing CA, issued by the policy CA
-	layout    intoto.Layout
-	linkDir   string // absolute: where run / record wrote the links
-	ncert     int
-	broken    bool // an invocation that builds the chain (run, record, sign) did not behave as demanded
+	bin, root  string
+	cfg        ChainCfg
+	r          *lib.Rng
+	verbose    bool
+	history    []Invocation
+	cases      []lib.Case
+	keys       map[string]*funcKey
+	rootCA     *lib.CA
+	interCA    *lib.CA // policy CA, issued by the root
+	inter2CA   *lib.CA // issuing CA, issued by the policy CA
+	layout     intoto.Layout
+	linkDir    string // absolute: where run / record wrote the links
+	ncert      int
+	dupLayouts map[string]string // layouts with two signature entries per key id (name -> path)
+	broken     bool              // an invocation that builds the chain (run, record, sign) did not behave as demanded
 }
 
 func newWorld(bin, workdir string, cfg ChainCfg) *world {
@@ -554,7 +583,30 @@ func newWorld(bin, workdir string, cfg ChainCfg) *world {
 	if cfg.Lstrip {
 		os.MkdirAll(filepath.Join(w.wsDir(), w.projDir()), 0o755)
 	}
+	if cfg.DirVia != "" {
+		makeVia(root, orDefault(cfg.MetaName, "meta"))
+	}
 	return w
+}
+
+// viaName: how a directory [name] is spelled under its parent for the DirVia shapes; [sibling] is
+// a directory next to it (for the .. spelling)
+func viaName(via, name, sibling string) string {
+	switch via {
+	case "symlink", "symlink-slash":
+		return name + "-link"
+	case "symlink-chain":
+		return name + "-link2"
+	case "dotdot":
+		return sibling + "/../" + name
+	}
+	return name
+}
+
+// makeVia creates the symlinks <name>-link -> <name> and <name>-link2 -> <name>-link in [parent]
+func makeVia(parent, name string) {
+	os.Symlink(name, filepath.Join(parent, name+"-link"))
+	os.Symlink(name+"-link", filepath.Join(parent, name+"-link2"))
 }
 
 func (w *world) wsDir() string   { return filepath.Join(w.root, orDefault(w.cfg.WsName, "ws")) }
@@ -796,11 +848,11 @@ func (w *world) commonOpts(s StepCfg) []string {
 		o = append(o, "--use-dsse")
 	}
 	if w.cfg.MetaDir {
-		d := "../" + orDefault(w.cfg.MetaName, "meta")
+		d := "../" + viaName(w.cfg.DirVia, orDefault(w.cfg.MetaName, "meta"), orDefault(w.cfg.WsName, "ws"))
 		if w.cfg.AbsPaths {
-			d = w.metaDir()
+			d = w.root + "/" + viaName(w.cfg.DirVia, orDefault(w.cfg.MetaName, "meta"), orDefault(w.cfg.WsName, "ws"))
 		}
-		if w.cfg.TrailingSlash {
+		if w.cfg.TrailingSlash || w.cfg.DirVia == "symlink-slash" {
 			d += "/"
 		}
 		o = append(o, "-d", d)
